@@ -24,6 +24,41 @@ pub struct PublicKey(rsa::pss::VerifyingKey<sha2::Sha384>);
 #[derive(Clone)]
 pub struct LocalKey([u8; 32]);
 
+/// Decodes a PKCS#1 RSA private key given as DER, or as the PEM text of the same document.
+#[cfg(feature = "signing")]
+fn decode_rsa_private_key(bytes: &[u8]) -> Result<rsa::RsaPrivateKey, paseto_core::PasetoError> {
+    use paseto_core::PasetoError;
+    use rsa::pkcs1::DecodeRsaPrivateKey;
+    use rsa::pkcs1::der::pem::PemLabel;
+    use rsa::pkcs1::der::{Decode, Document};
+
+    let pem;
+    let der = if rsa::pkcs1::RsaPrivateKey::from_der(bytes).is_ok() {
+        bytes
+    } else {
+        let s = core::str::from_utf8(bytes).map_err(|_| PasetoError::InvalidKey)?;
+        let (label, doc) = Document::from_pem(s).map_err(|_| PasetoError::InvalidKey)?;
+        rsa::pkcs1::RsaPrivateKey::validate_pem_label(label)
+            .map_err(|_| PasetoError::InvalidKey)?;
+        pem = doc;
+        pem.as_bytes()
+    };
+
+    // `rsa` divides by `prime - 1` when it validates a key, so a "prime" of 0 or 1 must not reach it.
+    let raw = rsa::pkcs1::RsaPrivateKey::from_der(der).map_err(|_| PasetoError::InvalidKey)?;
+    for prime in [raw.prime1, raw.prime2] {
+        if let [zeros @ .., last] = prime.as_bytes() {
+            if *last <= 1 && zeros.iter().all(|b| *b == 0) {
+                return Err(PasetoError::InvalidKey);
+            }
+        } else {
+            return Err(PasetoError::InvalidKey);
+        }
+    }
+
+    rsa::RsaPrivateKey::from_pkcs1_der(der).map_err(|_| PasetoError::InvalidKey)
+}
+
 impl version::Version for V1 {
     const HEADER: &'static str = "v1";
     const PASERK_HEADER: &'static str = "k1";
